@@ -190,7 +190,8 @@ let h_regq args = match args with
     (match rest with
      | L [iq0; L iouts; iqf] :: _ ->
        let a = ref (Some (a_init rs)) in
-       if iq0 <> enc_queue (abs_queue (a_init rs)) then spec_ok := false;
+       (* the queue contents are a private attribute of the implementation: "unavailable" when it is gone *)
+       if iq0 <> A "unavailable" && iq0 <> enc_queue (abs_queue (a_init rs)) then spec_ok := false;
        (try
           List.iter2 (fun op io ->
               match !a, op with
@@ -208,7 +209,7 @@ let h_regq args = match args with
                  | None, _ -> a := None)
               | _ -> ()) ops iouts
         with Invalid_argument _ -> spec_ok := false);
-       (match !a with Some st -> if iqf <> enc_queue (abs_queue st) then spec_ok := false | None -> ())
+       (match !a with Some st -> if iqf <> A "unavailable" && iqf <> enc_queue (abs_queue st) then spec_ok := false | None -> ())
      | _ -> ());
     [L [A "model"; L [enc_queue q0; L outs; enc_queue !q]];
      L [A "chk"; chk "C19" !spec_ok]]
